@@ -5,6 +5,8 @@ import (
 	"flag"
 	"fmt"
 	"os"
+	"path/filepath"
+	"sort"
 	"strconv"
 	"strings"
 	"testing"
@@ -41,22 +43,78 @@ type replayDoc struct {
 	Case     json.RawMessage `json:"case"`
 }
 
-func loadReplay(t *testing.T, id string, into any) string {
-	b, err := os.ReadFile(*replayFile)
+// replayers re-run the oracle of a property on one recorded case, without
+// rapid; they return "" when the property holds on the case.
+var replayers = map[string]func(kind string, c json.RawMessage) string{}
+
+func readReplay(path, id string) (replayDoc, error) {
+	var d replayDoc
+	b, err := os.ReadFile(path)
+	if err != nil {
+		return d, err
+	}
+	if err := json.Unmarshal(b, &d); err != nil {
+		return d, fmt.Errorf("%s: %v", path, err)
+	}
+	if d.Property != id {
+		return d, fmt.Errorf("%s is a case of %s, not %s", path, d.Property, id)
+	}
+	return d, nil
+}
+
+// replayMode handles -replay: returns true if the test is done.
+func replayMode(t *testing.T, id string) bool {
+	if *replayFile == "" {
+		return false
+	}
+	d, err := readReplay(*replayFile, id)
 	if err != nil {
 		t.Fatalf("replay: %v", err)
 	}
-	var d replayDoc
-	if err := json.Unmarshal(b, &d); err != nil {
-		t.Fatalf("replay: %v", err)
+	if why := replayers[id](d.Kind, d.Case); why != "" {
+		ev.Repro(id, d.Kind, d.Case)
+		t.Fatalf("%s", why)
 	}
-	if d.Property != id {
-		t.Fatalf("replay file is for %s, not %s", d.Property, id)
+	return true
+}
+
+// runRegressions runs the permanent regression cases of a property
+// (/verif/regress/<id>/*.json: shrunk reproducers of repaired defects and of
+// seeded changes) before any generated case.
+func runRegressions(t *testing.T, id string) int {
+	dir := os.Getenv("VERIF_DIR")
+	if dir == "" {
+		dir = "../.."
 	}
-	if err := json.Unmarshal(d.Case, into); err != nil {
-		t.Fatalf("replay: %v", err)
+	files, _ := filepath.Glob(filepath.Join(dir, "regress", id, "*.json"))
+	sort.Strings(files)
+	for _, f := range files {
+		d, err := readReplay(f, id)
+		if err != nil {
+			t.Fatalf("regression case: %v", err)
+		}
+		if why := replayers[id](d.Kind, d.Case); why != "" {
+			ev.Repro(id, d.Kind, d.Case)
+			t.Fatalf("regression case %s: %s", filepath.Base(f), why)
+		}
 	}
-	return d.Kind
+	return len(files)
+}
+
+func mustJSON(c json.RawMessage, into any) {
+	if err := json.Unmarshal(c, into); err != nil {
+		panic(fmt.Sprintf("bad replay case: %v", err))
+	}
+}
+
+// finish writes the evidence of a test.
+func finish(t *testing.T, rec *ev.Recorder) { rec.Write(btoi(t.Failed())) }
+
+func btoi(b bool) int {
+	if b {
+		return 1
+	}
+	return 0
 }
 
 // outcome of comparing one session between the reference and the VM
